@@ -89,6 +89,23 @@ Theorem C14_reachable_transitions_are_jsep_edges : forall ops o,
 Proof. exact reachable_transitions_are_jsep_edges. Qed.
 Print Assumptions C14_reachable_transitions_are_jsep_edges.
 
+(* T+. The same in the words of the property.  For a call that applies description d on side sd
+   (setLocalDescription / setRemoteDescription; `applied` resolves the implicit type):
+     InvalidStateError  iff  RFC 8829 has no transition for (state, side, type);
+     ValueError         iff  the transition exists and d is defective -- some media section lacks ICE
+                             credentials, or (answer) a decided DTLS role, or (remote) any DTLS role, or
+                             (audio/video) rtcp-mux -- or d is an answer whose (kind, mid) sections differ
+                             from the pending offer's;
+     success            iff  the transition exists and neither is the case. *)
+Theorem C14_outcome_characterised : forall s o sd d, inv s -> in_alphabet o -> applied s o = Some (sd, d) ->
+  (snd (step s o) = InvalidState <-> jsep_next (sig s) sd (d_type d) = None) /\
+  (snd (step s o) = ValueErr <->
+     jsep_next (sig s) sd (d_type d) <> None /\ (defective sd d \/ mismatched s sd d)) /\
+  (snd (step s o) = Done <->
+     jsep_next (sig s) sd (d_type d) <> None /\ ~ defective sd d /\ ~ mismatched s sd d).
+Proof. exact outcome_characterised. Qed.
+Print Assumptions C14_outcome_characterised.
+
 (* T+. 'signalingstatechange' fires exactly on a successful setLocal/setRemoteDescription and on the
    first close(). *)
 Theorem C14_event_spec : forall s o, inv s -> in_alphabet o ->
